@@ -27,20 +27,23 @@ type point struct {
 	Tags []string
 }
 
-// anchor builds the 8-point menu around the UTC midnight that ends day d0 (d1 = d0 + 1 day):
+// anchor builds the 9-point menu around the UTC midnight that ends day d0 (d1 = d0 + 1 day):
 //
-//	A d0 23:59:58.000   B d0 23:59:58.400 (sub-second partner of A)   C d1 00:00:03   D d1 00:10:00
+//	A d0 23:59:58.000   B d0 23:59:58.401 (sub-second partner of A; not a multiple of 256 ns, so not exact as float64)   C d1 00:00:03   D d1 00:10:00
 //	E d1 07:59:50 / F d1 08:00:10 (either side of America/Los_Angeles midnight, UTC-8)
+//	I d1 08:00:19 (an end that is neither a multiple of 15 s nor of 20 s: the 15 s bucket that holds it starts after
+//	  the 20 s range bucket before it ends)
 //	G d1 14:59:50 / H d1 15:00:10 (either side of Asia/Tokyo midnight, UTC+9)
 func anchor(prefix string, d1 time.Time) []point {
 	at := func(d time.Duration) time.Time { return d1.Add(d) }
 	return []point{
 		{prefix + "A", at(-2 * time.Second), nil},
-		{prefix + "B", at(-2*time.Second + 400*time.Millisecond), []string{"subsecond"}},
+		{prefix + "B", at(-2*time.Second + 401*time.Millisecond), []string{"subsecond"}},
 		{prefix + "C", at(3 * time.Second), nil},
 		{prefix + "D", at(10 * time.Minute), nil},
 		{prefix + "E", at(8*time.Hour - 10*time.Second), nil},
 		{prefix + "F", at(8*time.Hour + 10*time.Second), nil},
+		{prefix + "I", at(8*time.Hour + 19*time.Second), nil},
 		{prefix + "G", at(15*time.Hour - 10*time.Second), nil},
 		{prefix + "H", at(15*time.Hour + 10*time.Second), nil},
 	}
@@ -66,7 +69,7 @@ func localDay(ns int64, loc *time.Location) int64 {
 	return floorDiv(t.Unix()+int64(off), 86400)
 }
 
-// windows returns the menu of windows: all pairs of the 8 points of each anchor plus, for four of the points,
+// windows returns the menu of windows: all pairs of the 9 points of each anchor plus, for four of the points,
 // the 5-minute look-back window that ends there (what an instant query asks for).
 func windows(thorough bool) []Win {
 	anchors := []struct {
@@ -143,7 +146,7 @@ func windows(thorough bool) []Win {
 				add(pts[i].Name+pts[j].Name, pts[i].T, pts[j].T, nil)
 			}
 		}
-		for _, i := range []int{2, 3, 5, 7} {
+		for _, i := range []int{2, 3, 5, 8} {
 			add("lb"+pts[i].Name, pts[i].T.Add(-300*time.Second), pts[i].T, nil)
 		}
 	}
@@ -201,9 +204,9 @@ type Item struct {
 func marker(fam, cls, typ string) string { return "z" + fam + "_" + cls + "_" + typ + "_qz" }
 
 // sampleItems: classes x {log, metric, both}.
-func sampleItems(w Win) []Item {
+func sampleItems(classes []class) []Item {
 	var out []Item
-	for _, c := range classesOf(w) {
+	for _, c := range classes {
 		for _, t := range []int{typeLog, typeMetric, typeBoth} {
 			out = append(out, Item{Idx: len(out), Class: c.Name, Ts: c.Ts, Type: t, Marker: marker("q", c.Name, typeLetters[t])})
 		}
@@ -212,9 +215,9 @@ func sampleItems(w Win) []Item {
 }
 
 // untypedItems: one item per class (traces: fam "t", shared-trace spans: fam "s", profiles: fam "p").
-func untypedItems(w Win, fam string) []Item {
+func untypedItems(classes []class, fam string) []Item {
 	var out []Item
-	for _, c := range classesOf(w) {
+	for _, c := range classes {
 		out = append(out, Item{Idx: len(out), Class: c.Name, Ts: c.Ts, Type: -1, Marker: marker(fam, c.Name, "x")})
 	}
 	return out
